@@ -25,9 +25,35 @@ package directive
 //@   requires[C01] 0 <= de && de <= 30
 //@ extern (github.com/jsightapi/jsight-api-core/directive.Enumeration).IsAllowedForDirectiveContext(de, child)
 //@   attr pure deterministic nopanic
+//@   ensures result == allowedSpec(de, child)
 
 // a directive that came out of the scanning phase: located at a keyword inside a non-empty file
 //@ pred dirOK(d *Directive) := d != nil && d.namedParameters != nil && d.includeTracer != nil
 //@     && 0 <= d.type_ && d.type_ <= 30
 //@     && d.keywordCoords.file != nil && len(d.keywordCoords.file.content.data) > 0
 //@     && d.keywordCoords.begin < len(d.keywordCoords.file.content.data)
+
+// ---------------------------------------------------------------------------
+// The context table of JSight API 0.3 (C11), transcribed as the specification. The code's tables
+// (IsAllowedForRootContext: a switch, verified here; IsAllowedForDirectiveContext: a map built at package load,
+// evaluated on the complete 31 x 31 domain by /verif/bounded and assumed here) are checked against it.
+//@ pred isHTTPMethod(t Enumeration) := in(t, Get, Post, Put, Patch, Delete)
+//@ pred rootSpec(t Enumeration) := in(t, Jsight, Info, Server, URL, Get, Post, Put, Patch, Delete, Type, Enum, Macro, Paste, TAG)
+//@ pred allowedSpec(p Enumeration, c Enumeration) :=
+//@     ite(p == URL, in(c, Get, Post, Put, Patch, Delete, Path, Paste, Protocol, Method, Tags),
+//@     ite(isHTTPMethod(p), in(c, Description, Request, HTTPResponseCode, Path, Query, Paste, Tags, OperationID),
+//@     ite(in(p, HTTPResponseCode, Request), in(c, Body, Headers, Paste),
+//@     ite(p == Info, in(c, Title, Version, Description, Paste),
+//@     ite(p == Server, in(c, BaseURL, Paste),
+//@     ite(p == Method, in(c, Description, Params, Result, Tags),
+//@     ite(p == TAG, c == Description,
+//@     ite(p == Macro, in(c, Info, Title, Version, Description, Server, BaseURL, URL, Get, Post, Put, Patch, Delete, Body,
+//@                        Request, HTTPResponseCode, Path, Headers, Query, Type, Enum, Paste),
+//@     false))))))))
+
+//@ func (Enumeration).IsAllowedForRootContext(de)
+//@   property C11
+//@   ensures[C11,@root-table] result == rootSpec(de)
+//@ func (Enumeration).IsHTTPRequestMethod(de)
+//@   property C11
+//@   ensures[C11] result == isHTTPMethod(de)
